@@ -23,6 +23,8 @@ def quick_cfgs():
     out = [cfg(c, z2=i % 2) for i, c in enumerate(COLS)] + [cfg(c, z2=(i + 1) % 2) for i, c in enumerate(COLS)]
     out += [cfg('INTRUSIVE_LIST', z2=0, rows=1, intr=1, rmrows=1, rmcol=1), cfg('SET', z2=1, rows=1, intr=0, rmcol=1, mapc=1), cfg('VECTOR', z2=0, swaps=1, rows=1, intr=0),
             cfg('NAIVE_VECTOR', z2=1, swaps=1, mapc=1, rmcol=1), cfg('VECTOR', z2=1, swaps=1), cfg('VECTOR', z2=0, swaps=1, mapc=1), cfg('HEAP', z2=0, swaps=1), cfg('UNORDERED_SET', z2=1, swaps=1), cfg('INTRUSIVE_SET', z2=0, swaps=1), cfg('LIST', z2=0, comp=1, rows=1, rmrows=1), cfg('INTRUSIVE_LIST', z2=1, comp=1), cfg('UNORDERED_SET', z2=0, comp=1)]
+    # the column order (operator<) of every column type is only used by the compressed matrix: one Z_p compressed instantiation per type
+    out += [cfg(c, z2=0, comp=1) for c in COLS if c not in ('HEAP', 'UNORDERED_SET')] + [cfg('SET', z2=1, comp=1), cfg('VECTOR', z2=1, comp=1)]
     return out
 
 
@@ -54,6 +56,12 @@ def gen_case(rng, caps):
         col = {r: rng.randrange(1, p) for r in range(R) if rng.random() < 0.5}
         if rng.random() < 0.15: col = {}
         if dense and rng.random() < 0.25: col = dict(dense[rng.randrange(len(dense))])     # duplicate column (classes of the compressed variant)
+        elif dense and p > 2 and rng.random() < 0.3:
+            # same support as an existing column, other coefficients (a multiple, or one coefficient changed): never the same class
+            col = dict(dense[rng.randrange(len(dense))])
+            if col:
+                if rng.random() < 0.5: c = rng.randrange(2, p); col = {r: v * c % p for r, v in col.items()}
+                else: r = rng.choice(sorted(col)); col[r] = (col[r] + rng.randrange(1, p - 1)) % p or 1
         dense.append(col); lines.append(('inscol ' + ' '.join('%d:%d' % kv for kv in sorted(col.items()))).rstrip())
     for _ in range(rng.randrange(2, 5)): ins()
     lines.append('obs %d' % R)
@@ -87,7 +95,7 @@ def gen_case(rng, caps):
                     va, vb = col.pop(a, None), col.pop(b, None)
                     if va is not None: col[b] = va
                     if vb is not None: col[a] = vb
-            elif s != t and not caps.get('setrows'):   # non-intrusive rows lose entries on a column swap (known finding)
+            elif s != t and not caps['rows']:   # with row access a column swap leaves stale column indices behind (known finding)
                 lines.append('swapcol %d %d' % (s, t)); dense[s], dense[t] = dense[t], dense[s]
             else: continue
         elif o < 0.95 and caps['rm'] and n > 1:
@@ -186,6 +194,12 @@ def run(ctx):
     for name, d, caps in cfgs:
         if name in ('heap_zp', 'vector', 'unordered_set_zp', 'intrusive_set_zp_swaps') and name in live:
             vlib.correspondence(ctx, name + '_exhaustive_len3', live[name], drv, exhaustive(caps, 2 if caps['z2'] else 3), keep_prefix=4, oracle=oracle)
+    # release builds (-O2 -DNDEBUG) of the lazily erasing and lazily normalising columns, and of two others: nothing the property relies on may live inside GUDHI_CHECK
+    rel = [c for c in cfgs if c[0].startswith('vector') or c[0].startswith('heap')][: (12 if thorough else 4)] + [c for c in cfgs if c[0].startswith(('set', 'intrusive_list'))][:2]
+    rexes, rerrs = vlib.build_many(ctx, [dict(name='hC09_' + n_ + '_rel', src=src, defines=list(d) + ['NDEBUG'], opt='-O2') for n_, d, c in rel])
+    for name, d, caps in rel:
+        e = rexes.get('hC09_' + name + '_rel')
+        if e: vlib.correspondence(ctx, name + '_release', [e], drv, [gen_case(ctx.rng, caps) for _ in range(n)], keep_prefix=1, oracle=oracle)
     vlib.run_known_witnesses(ctx, live, drv, oracle)
     ctx.extra['instantiations_that_do_not_compile'] = {k: v[-200:] for k, v in errs.items()}
     if not live: ctx.violation('harness-build', 'no instantiation compiles: ' + str(errs)[-1000:], found_input=False)
@@ -199,9 +213,10 @@ def run(ctx):
 
 
 def replay_cmds(ctx, rp):
-    name = rp.get('stream', '').replace('_asan_ubsan', '').replace('_exhaustive_len3', '')
+    stream = rp.get('stream', ''); rel = stream.endswith('_release')
+    name = stream.replace('_asan_ubsan', '').replace('_exhaustive_len3', '').replace('_release', '')
     for n, d, caps in thorough_cfgs():
         if n == name:
-            exe, err = vlib.build_harness(ctx, 'hC09_' + n, os.path.join(vlib.VERIF, 'harness', 'hC09.cpp'), defines=d)
+            exe, err = vlib.build_harness(ctx, 'hC09_' + n + ('_rel' if rel else ''), os.path.join(vlib.VERIF, 'harness', 'hC09.cpp'), defines=list(d) + (['NDEBUG'] if rel else []), opt='-O2' if rel else '-O1')
             return ([exe], [vlib.driver_path(), 'C09']) if exe else None
     return None
